@@ -353,6 +353,15 @@ func (w *WaitGroup) Add(delta int) {
 
 func (w *WaitGroup) Done() { w.Add(-1) }
 
+// Go is WaitGroup.Go of Go 1.25: f runs as a simulated goroutine.
+func (w *WaitGroup) Go(f func()) {
+	w.Add(1)
+	simrt.Go("WaitGroup.Go", func() {
+		defer w.Done()
+		f()
+	})
+}
+
 //go:norace
 func (w *WaitGroup) Wait() {
 	if simrt.K == nil {
@@ -376,6 +385,32 @@ func (o *Once) Do(f func()) {
 	if !o.done {
 		defer func() { o.done = true }()
 		f()
+	}
+}
+
+// OnceFunc, OnceValue, OnceValues: as in package sync, over the Once above (a second caller waits as a simulated
+// goroutine, not inside the runtime).
+func OnceFunc(f func()) func() {
+	var o Once
+	return func() { o.Do(f) }
+}
+
+func OnceValue[T any](f func() T) func() T {
+	var o Once
+	var v T
+	return func() T {
+		o.Do(func() { v = f() })
+		return v
+	}
+}
+
+func OnceValues[T1, T2 any](f func() (T1, T2)) func() (T1, T2) {
+	var o Once
+	var v1 T1
+	var v2 T2
+	return func() (T1, T2) {
+		o.Do(func() { v1, v2 = f() })
+		return v1, v2
 	}
 }
 
